@@ -8,7 +8,9 @@ META = {
     "level": "proof",
     "text": "aifeyn_complexity is verified from its AST for label lists of any length and any parameter list: result = len(tree) ln(d+h) + sum over the integer "
             "labels of ln|c'| with d the number of distinct non-parameter non-integer labels, h = 1 iff a parameter or integer occurs, 0 read as 1 (strings are abstract "
-            "labels with the classification predicates the code uses). Alignment: the writers region of generate_equations is verified from its AST: in every shape "
+            "labels with the classification predicates the code uses). The parameter list its callers build ([a0 .. a(m-1)] with m = simplifier.get_max_param(functions)) covers every "
+            "function whose parameters are numbered without gaps: get_max_param is verified (if a function contains a0 .. a(k-1) then k <= m), and so is count_params (1 + the largest j "
+            "with a<j> in the function). Alignment: the writers region of generate_equations is verified from its AST: in every shape "
             "iteration orig_trees/orig_aifeyn get exactly one physical line per original tree and extra_trees/extra_aifeyn one per rewritten tree, in list order (the pprint width "
             "rule keeps every tree text on one line), the four files are truncated before the loop and the two cat commands overwrite their targets. Bounded, not counted as proved: the routine, its renaming/param-list invariance and "
             "fit_single.tree_to_aifeyn on random label lists against an independent implementation of the formula, and line i of aifeyn_<n>.txt against tree i for "
@@ -34,6 +36,12 @@ def check(run):
     for f in r["failures"][:1]:
         found = True
         run.violation("c08:labels:%s" % ",".join(f["labels"]), f["error"], {"harness": "rt_c08.py", "payload": {"mode": "random", "seed": run.seed, "n_random": 400}})
+    from contracts import c_simplifier
+    pfailed = []
+    for fn, mk in (("get_max_param", c_simplifier.get_max_param_contract), ("count_params", c_simplifier.count_params_contract)):
+        st_, f_, _e = D.verify_function(run, "generation/simplifier.py", fn, mk, timeout_ms=8000,
+                                        note="strings abstract; 'a%i' % k in f is an uninterpreted substring relation (A-str)")
+        pfailed += f_
     wfailed, wsfailed, wfound = D.generation_writers(run, tier)
     found = found or wfound
     groups = genjobs.job_groups(tier, run.seed, n_random=2 if tier == "quick" else 8)
@@ -51,6 +59,9 @@ def check(run):
     if failed and not found:
         from checks.C14 import report_unproved
         report_unproved(run, failed, False, "aifeyn_complexity")
+    if pfailed and not found and not run.violations:
+        from checks.C14 import report_unproved
+        report_unproved(run, pfailed, False, "simplifier.get_max_param / count_params")
     if wfailed and not found and not run.violations:
         from checks.C14 import report_unproved
         report_unproved(run, wfailed, False, "generator.generate_equations (writers region)")
